@@ -18,10 +18,12 @@ int enum_main(int argc, char** argv) {
     stats_flush();
     return 0;
   }
-  if (argc < 5) { fprintf(stderr, "usage: %s <ncases> <len> <shard> <nshards> | --replay FILE\n", argv[0]); return 2; }
-  long ncases = atol(argv[1]); size_t len = (size_t)atol(argv[2]); long shard = atol(argv[3]), nshards = atol(argv[4]);
+  if (argc < 5) { fprintf(stderr, "usage: %s <ncases> <len> [<first>] <shard> <nshards> | --replay FILE\n", argv[0]); return 2; }
+  long ncases = atol(argv[1]); size_t len = (size_t)atol(argv[2]); long first = 0; int a = 3;
+  if (argc >= 6) first = atol(argv[a++]);   // optional: index of the first case (cases first..ncases-1)
+  long shard = atol(argv[a]), nshards = atol(argv[a + 1]);
   const char* sv = getenv("VERIF_SEED"); uint64_t seed = sv ? strtoull(sv, nullptr, 10) : 1;
-  for (long i = shard; i < ncases; i += nshards) {
+  for (long i = first + shard; i < ncases; i += nshards) {
     uint64_t st = seed * 0x100000001b3ull + (uint64_t)i * 0x9e3779b97f4a7c15ull + 12345;
     std::string b(len, '\0');
     for (size_t k = 0; k < len; k += 8) { uint64_t v = splitmix(st); for (size_t j = 0; j < 8 && k + j < len; j++) b[k + j] = (char)(v >> (8 * j)); }
